@@ -74,12 +74,19 @@ def forms_for(ktype, reduced=False):
 class Log:
     """Shared event log of one case: shown elements (in order) and key-callable calls."""
 
+    hook = None     # called with the element after it was logged (part E)
+
     def __init__(self):
         self.shown = []
         self.keycalls = 0
 
     def clear(self):
         del self.shown[:]
+
+    def note(self, elem):
+        self.shown.append(elem)
+        if self.hook is not None:
+            self.hook(elem)
 
 
 class KeyFn:
@@ -103,7 +110,7 @@ class Elem:
         self.log_ = log
 
     def __str__(self):
-        self.log_.shown.append(self)
+        self.log_.note(self)
         return self.uid
 
     def snapshot(self):
@@ -114,7 +121,7 @@ class MapElem(dict):
     """mapping element (``mapping`` attribute of dtml-in)."""
 
     def __str__(self):
-        self.log_.shown.append(self)
+        self.log_.note(self)
         return self['uid']
 
     def snapshot(self):
@@ -130,7 +137,7 @@ class CmpElem:
         self.key = key
 
     def __str__(self):
-        self.log_.shown.append(self)
+        self.log_.note(self)
         return self.uid
 
     def __lt__(self, o):
